@@ -2460,7 +2460,14 @@ impl<'s> Semantics<'s> {
             let block = control_flow_graph.new_block()?;
 
             let src = self.operand_load(block, &detail.operands[1])?;
-            let value = Expr::sext((detail.operands[0].size as usize) * 8, src)?;
+            // with an operand-size prefix source and destination can have the
+            // same width (movzx/movsx r16, r/m16), which is a plain move
+            let dst_bits = (detail.operands[0].size as usize) * 8;
+            let value = if src.bits() == dst_bits {
+                src
+            } else {
+                Expr::sext(dst_bits, src)?
+            };
 
             self.operand_store(block, &detail.operands[0], value)?;
 
@@ -2480,7 +2487,14 @@ impl<'s> Semantics<'s> {
             let block = control_flow_graph.new_block()?;
 
             let src = self.operand_load(block, &detail.operands[1])?;
-            let value = Expr::zext((detail.operands[0].size as usize) * 8, src)?;
+            // with an operand-size prefix source and destination can have the
+            // same width (movzx/movsx r16, r/m16), which is a plain move
+            let dst_bits = (detail.operands[0].size as usize) * 8;
+            let value = if src.bits() == dst_bits {
+                src
+            } else {
+                Expr::zext(dst_bits, src)?
+            };
 
             self.operand_store(block, &detail.operands[0], value)?;
 
